@@ -53,7 +53,7 @@ MANIFEST = dict(
               "+ effect summaries",
 )
 FLOORS = {"C20.1": 20, "C20.2": 4, "C20.3": 6, "C20.4": 8, "C20.5": 3,
-          "C20.6": 8}
+          "C20.6": 8, "C20.8": 7}
 
 PL = "evo.tools.plot."
 PM = PL + "PlotMode"
@@ -137,6 +137,7 @@ def check(ctx):
     ctx.section(_time_axes, ctx, prog)
     ctx.section(_formatter, ctx, prog)
     ctx.section(_euler_default, ctx, prog)
+    ctx.section(_result_plots, ctx, prog)
     ctx.section(_purity, ctx, prog)
 
 
@@ -490,6 +491,75 @@ def _time_axes(ctx, prog):
 
 
 # --------------------------------------------------------------------- C20.5
+def _result_plots(ctx, prog):
+    """C20.8: evo_ape / evo_rpe hand the plot functions their own data: the
+    raw-value plot gets the result's error values against the companion
+    array the user selected (distances / seconds from start, each only if
+    the result has it, else the index); the colour-mapped plot gets the
+    *estimate* and the same error values; both trajectory plots use the
+    selected plot mode."""
+    f = prog.func("evo.common_ape_rpe.plot_result")
+    ctx.analysed_fn(f.qualname)
+    res_p = tm.param("result")
+    arrays = tm.attr(res_p, "np_arrays")
+    errs = tm.sub(arrays, const("error_array"))
+    A = lambda n: tm.attr(tm.param("args"), n)
+    want = {"distances": "distances_from_start",
+            "seconds": "seconds_from_start", "index": None}
+    for dim, key in want.items():
+        for has in (True, False):
+            def assume(t, key=key, has=has):
+                if t.op == "cmp" and t.args[0] in ("In", "NotIn") and \
+                        t.args[2] is arrays and tm.is_const(t.args[1]):
+                    present = has if t.args[1].args[1] == key else True
+                    return present == (t.args[0] == "In")
+                return None
+            r = Interp(prog, inline=_helpers, assume=assume).run(
+                f, {}, None, preset_attrs={
+                    (tm.param("args"), "plot_x_dimension"): const(dim)})
+            ctx.analysed["configs"] += 1
+            ea = [e for e in r.calls(PL + "error_array")
+                  if not tm.is_const(e.live, False)]
+            if len(ea) != 1:
+                ctx.undecidable("C20.8", f, f"plot_result[{dim}]: "
+                                f"error_array call not found")
+                continue
+            b = ea[0].data["bound"] or {}
+            exp_x = tm.sub(arrays, const(key)) if key and has else tm.NONE
+            ok = b.get("err_array") is errs and \
+                (b.get("x_array") is exp_x or
+                 (exp_x is tm.NONE and b.get("x_array") is None))
+            ctx.ob("C20.8", ea[0], bool(ok),
+                   f"plot_result[x={dim}, array "
+                   f"{'present' if has else 'absent'}]: error values "
+                   f"against {key if key and has else 'the index'}"
+                   if ok else
+                   f"plot_result[x={dim}, array "
+                   f"{'present' if has else 'absent'}]: error_array gets "
+                   f"y={fmt(b.get('err_array'))[:50]}, "
+                   f"x={fmt(b.get('x_array'))[:50]} — expected the result's "
+                   f"error_array against "
+                   f"{key if key and has else 'no x array (index)'}",
+                   key=f"C20.8:raw:{dim}:{has}")
+    r = Interp(prog, inline=_helpers).run(f)
+    cm = r.calls(PL + "traj_colormap")
+    if len(cm) != 1:
+        ctx.undecidable("C20.8", f, "plot_result: traj_colormap call not "
+                        "found")
+        return
+    b = cm[0].data["bound"] or {}
+    pm = b.get("plot_mode")
+    ok = b.get("traj") is tm.param("traj_est") and b.get("array") is errs \
+        and pm is not None and is_call_to(pm, PL + "PlotMode") and \
+        pm.args[1] and pm.args[1][0] is A("plot_mode")
+    ctx.ob("C20.8", cm[0], bool(ok),
+           "plot_result: the colour map shows the result's error values on "
+           "the *estimate*, in the selected plot mode" if ok else
+           f"plot_result: traj_colormap(traj={fmt(b.get('traj'))[:40]}, "
+           f"array={fmt(b.get('array'))[:50]}, mode={fmt(pm)[:40]})",
+           key="C20.8:colormap")
+
+
 def _euler_default(ctx, prog):
     """C20.7: traj_rpy labels column 0/1/2 of get_orientations_euler(
     SETTINGS.euler_angle_sequence) roll / pitch / yaw; that is the rotation
